@@ -266,3 +266,32 @@ impl<'a> BindContext<'a> {
     #[verifier::external_body] pub fn has_macro(&self, name: &str) -> bool { unimplemented!() }
 }
 """
+
+
+# ---- comma separated expression lists (call arguments, list literals) ----------------------------------------------------------------
+EXPR_LIST_SPEC = r"""
+pub struct EL { pub items: Seq<P<Expr>>, pub end: nat, pub lbl: u32 }
+pub open spec fn tok_is_ending(t: Token, ending: Token) -> bool { (ending is RParen && t is RParen) || (ending is RBracket && t is RBracket) }
+/// Expr (`,` Expr)* [`,`]  up to (not including) the closing token; an empty list is allowed
+pub closed spec fn sp_el_loop(toks: Seq<TokenWithLoc>, acc: EL, ending: Token) -> Option<EL>
+    decreases toks.len() - acc.end
+{
+    if acc.end < toks.len() && tok_is_ending(toks[acc.end as int].token, ending) { Some(acc) } else {
+        match sp_expr(toks, acc.end, acc.lbl) {
+            Some(e) => if e.end > acc.end && e.end <= toks.len() {
+                    if e.end < toks.len() && toks[e.end as int].token is Comma { sp_el_loop(toks, EL { items: acc.items.push(e), end: e.end + 1, lbl: e.lbl }, ending) }
+                    else { Some(EL { items: acc.items.push(e), end: e.end, lbl: e.lbl }) }
+                } else { None },
+            None => None,
+        }
+    }
+}
+pub closed spec fn sp_expr_list(toks: Seq<TokenWithLoc>, pos: nat, lbl: u32, ending: Token) -> Option<EL> { sp_el_loop(toks, EL { items: Seq::empty(), end: pos, lbl: lbl }, ending) }
+"""
+EXPR_LIST_CLAUSE = ('list_of_expressions', '''r is Ok ==> ({
+                let l = sp_expr_list(old(self).tokenizer.toks(), old(self).tokenizer.pos(), old(self).next_label, ending);
+                &&& l is Some && final(self).tokenizer.pos() == l->Some_0.end && final(self).next_label == l->Some_0.lbl && final(self).tokenizer.pos() >= old(self).tokenizer.pos()
+                &&& r->Ok_0@.len() == l->Some_0.items.len()
+                &&& forall|i: int| 0 <= i < r->Ok_0@.len() ==> (#[trigger] r->Ok_0@[i]).1 == l->Some_0.items[i].ast && r->Ok_0@[i].0.details@ == l->Some_0.items[i].details && node_view(r->Ok_0@[i].0.inner) == l->Some_0.items[i].node
+            })''', ('C02', 'C17', 'C18'))
+ENDING_REQ = ('closing_token_is_a_bracket', 'ending is RParen || ending is RBracket')
